@@ -83,7 +83,7 @@ EVIDENCE = {
         "BruteForceSampler/GridSampler get n_trials below the size of their space (an optimize call issued after exhaustion re-evaluates a point by design)",
         "trial timestamps and trial ids legitimately differ between environments; they are compared only in the copy_study clause (timestamps) or never (ids)",
         "same-environment repeat that differs only by numeric noise (or for the torch based GPSampler) -> run inconclusive, counter excluded:<sampler>; a gross difference is a violation",
-        "PYTHONHASHSEED is pinned to 0 for the harness; the hash-seed axis is exercised in the thorough tier only (10% of the runs re-run their first environment in a fresh interpreter under another PYTHONHASHSEED; VERIF_C09_HASHSEED_RATE overrides the rate)",
+        "PYTHONHASHSEED is pinned to 0 for the harness; the hash-seed axis re-runs the first environment in a fresh interpreter under another PYTHONHASHSEED in 10% of the thorough-tier runs and 4% of the quick-tier runs (five times as often for the set-based TPE variants; VERIF_C09_HASHSEED_RATE overrides the rate)",
         "copy_study: source and target deployments live in one simulation, therefore never both SQLite-backed, both journal-file-backed or both gRPC",
         "CMA-ES is not installed; GP is drawn at a low rate with <=7 trials (0.1 s per GP trial)",
     ],
@@ -577,7 +577,8 @@ def gen_plan(seed: int, run: int, tier: str) -> dict:
         "copy": cp,
         # thorough tier: the first environment is run once more in a fresh interpreter under another
         # PYTHONHASHSEED (str-keyed set/dict-of-set iteration order inside optuna must not matter)
-        "hashseed": rng.choice([1, 2, 3, 12345, 4294967295]) if rng.random() < _hashseed_rate(tier) and sname != "gp" else None,
+        # samplers that work on sets of parameter names get the axis five times as often
+        "hashseed": rng.choice([1, 2, 3, 12345, 4294967295]) if rng.random() < _hashseed_rate(tier) * (5.0 if sname in ("tpe-group", "tpe-mv", "partial-tpe") else 1.0) and sname != "gp" else None,
         "sched": {"seed": rng.getrandbits(48)},
     }
 
@@ -586,7 +587,8 @@ def _hashseed_rate(tier: str) -> float:
     v = os.environ.get("VERIF_C09_HASHSEED_RATE")
     if v is not None:
         return float(v)
-    return 0.1 if tier == "thorough" else 0.0
+    # quick tier: a small share of the runs too (each costs one fresh interpreter, ~2-3 s)
+    return 0.1 if tier == "thorough" else 0.04
 
 
 def _inner(kind: str) -> str:
